@@ -115,6 +115,9 @@ func createStepCmafIngesterHdlr(s *Server) func(ctx context.Context, input *idIn
 		if !ok {
 			return nil, huma.Error404NotFound(fmt.Sprintf("CMAF ingest %s not found", input.Id))
 		}
+		if ci.state == ingesterStateStopped {
+			return nil, huma.Error410Gone(fmt.Sprintf("CMAF ingest %s has stopped", input.Id))
+		}
 		ci.triggerNextSegment()
 		resp := &CmafIngestStepResponse{}
 		resp.Body.ID = fmt.Sprintf("Stepped %s!", input.Id)
